@@ -15,6 +15,7 @@ must decode and expose the recorded field values."""
 import ast
 import binascii
 import collections
+import json
 import os
 import re
 import time
@@ -98,7 +99,7 @@ def _printed(res, tag):
     `<< "tag",` / `   "payload" >>`; tlc.printed_json only reads the one-line form, so this module reads both."""
     import json
     head1, head2 = f'<<"{tag}", "', f'<< "{tag}",'
-    lines = res.out.splitlines()
+    lines = res.out.split('\n')
     out = []
     i = 0
     while i < len(lines):
@@ -115,7 +116,6 @@ def _printed(res, tag):
 
 
 def _printed_json(res, tag):
-    import json
     seen, out = set(), []
     for s in _printed(res, tag):
         if s not in seen:
@@ -170,6 +170,7 @@ def check_urls(ctx, results):
     wit = dict.fromkeys(URL_WITNESSES, 0)
     seen_long = set()
     state = {'cur': None}
+    nsamp = {'ok': 0, 'rej': 0}
 
     def one_chunk(cases, base):
         nonlocal total, accepted_n, calls
@@ -218,10 +219,12 @@ def check_urls(ctx, results):
                 elif back != url:
                     ctx.violation('url-reparse-differs', f'URL.parse(str(x)) != x for x = URL.parse({text!r}): {back!r} vs {url!r}',
                                   {'text': text, 'printed': printed})
-                if accepted_n % 700 == 1 and v == 1:
-                    ctx.sample({'URL.parse': text, 'channel': got[0], 'stream': got[1], 'str': printed, 'spec_classes': u})
-            if c is None and total % 60000 == 1:
-                ctx.sample({'URL.parse': state['cur'], 'raised': True, 'spec_classes': u, 'spec_ok': False})
+                if v == 1 and nsamp['ok'] < 3 and len(u) >= 6 and (n % 97 == 0):
+                    nsamp['ok'] += 1
+                    ctx.sample({'URL.parse': text, 'channel': got[0], 'stream': got[1], 'str': printed, 'spec_classes': u}, cap=10)
+            if c is None and nsamp['rej'] < 2 and len(u) >= 5 and n % 9973 == 0:
+                nsamp['rej'] += 1
+                ctx.sample({'URL.parse': state['cur'], 'raised': True, 'spec_classes': u, 'spec_accepts': False}, cap=10)
 
     base = 0
     for (label, consts, res), acc in zip(results, accepted):
@@ -390,7 +393,6 @@ class Pools:
                     return ':'.join(parts)
         as_dict = {k: v for k, v in rec.items() if v}
         if form % 3 == 1:
-            import json
             return json.dumps(as_dict)
         return as_dict
 
@@ -835,14 +837,16 @@ def check_claims(ctx, res_bfs, res_wit, res_walk, consts):
                 ctx.violation('from_bytes:bytes', f'from_bytes(to_bytes(x)) is not x after {history[-1] if history else "construction"}: '
                               f'{data.hex()} -> {data2.hex()} (walk {tid} step {i})', {'walk': tid, 'step': i, 'calls': history})
                 ignored.add(('from_bytes', 'bytes'))
-            if tid % 97 == 5 and i == n - 1:
+            if tid % 97 == 5 and tid < 300 and i == n - 1:
                 ctx.sample({'walk': tid, 'calls': history[-6:], 'typed_view': {k: got_t[k] for k in list(got_t)[:8]}, 'bytes': len(data)})
+    # coverage guard -- only meaningful when no walk was cut short by a violation (a violation is never hidden behind exit 2)
+    cut_short = any(v['key'].split(':')[0] in ('api-raises', 'api-accepts', 'read-back-raises') for v in ctx.violations)
     never = [op for op in ALL_OPS if opcount[op] == 0]
-    if never:
+    if never and not cut_short:
         raise MachineryError(f'walks never performed: {never}')
     need = ['duplicate-dropped', 'empty-dropped', 'kind-mismatch', 'currency-replaced', 'media-switched', 'signed', 'unsigned']
     lacking = [x for x in need if notes[x] == 0]
-    if lacking:
+    if lacking and not cut_short:
         raise MachineryError(f'walks never reached: {lacking}')
     ctx.leg('B-api', walks=len(walks), calls=nsteps, per_operation=dict(opcount), situations=dict(notes))
     ctx.cov['traces_validated_against_impl'] += len(walks)
@@ -972,7 +976,7 @@ def run(ctx):
                   for wc in walk_c]
         f_url = [(label, consts, pool.submit(_run_url_tlc, ctx, label, consts)) for label, consts in url_jobs]
         f_bfs = pool.submit(lambda: tlc.run('ClaimApi', tlc.make_cfg(constants=bfs_c, invariants=API_INVS, properties=API_PROPS, constraint='Emit'), ctx,
-                                            workers=4, coverage=False, timeout=3000, label='ClaimApi-bfs'))
+                                            workers=8 if ctx.thorough else 4, coverage=False, timeout=3000, label='ClaimApi-bfs'))
         f_wit = [pool.submit(lambda w=w: tlc.run('ClaimApi', tlc.make_cfg(constants=wit_c, invariants=[w], constraint='Emit'), ctx,
                                                  workers=2, coverage=False, timeout=3000, label=f'ClaimApi-{w}')) for w in API_WITNESSES]
         # the legacy corpus and the metadata walks are replayed while the URL enumerations are still running
